@@ -135,7 +135,9 @@ fn byzantine_deliveries(rng: &mut Prng, or: &Oracles, n: usize, out: &mut Vec<De
         (40_000_000 + rng.below(1 << 22) as i64, true),
     ];
     let (t, edge) = *rng.pick(&targets);
-    let tr = match byz::exact_norm_triple(p, &or.get(n).ntt, rng, t, edge) {
+    // a third of the triples fill the compressed budget exactly (or leave 1..8 bits)
+    let fill = if !edge && rng.chance(1, 3) { Some(*rng.pick(&[0usize, 0, 0, 1, 2, 7, 8])) } else { None };
+    let tr = match byz::exact_norm_triple_fill(p, &or.get(n).ntt, rng, t, edge, fill) {
         Some(t) => t,
         None => return,
     };
@@ -147,7 +149,7 @@ fn byzantine_deliveries(rng: &mut Prng, or: &Oracles, n: usize, out: &mut Vec<De
         pk: tr.pk.clone(),
         pristine: None,
         faults: vec![],
-        origin: "Z1".into(),
+        origin: if fill.is_some() { "Z1-fill".into() } else { "Z1".into() },
         detail: format!("{} max|s1|={}", tr.note, tr.s1_max),
     };
     out.push(base.clone());
@@ -439,6 +441,12 @@ pub fn context(tier: Tier, seed: u64) -> Result<Ctx, String> {
         return Err("key pool could not be built on the current tree".into());
     }
     Ok(Ctx { pools, or: Oracles::new(), runs, per_run })
+}
+
+pub fn runner(tier: Tier, seed: u64) -> Option<(u64, Box<dyn Fn(u64) -> RunOutcome + Sync>)> {
+    let ctx = context(tier, seed).ok()?;
+    let n = ctx.runs;
+    Some((n, Box::new(move |run| one_run(seed, run, &ctx.pools, &ctx.or, ctx.per_run))))
 }
 
 pub fn rerun(tier: Tier, seed: u64, run: u64) -> Option<RunOutcome> {
